@@ -4,6 +4,7 @@ import (
 	"github.com/golang/groupcache/lru"
 	"golang.org/x/time/rate"
 	"net"
+	"strings"
 	"sync"
 )
 
@@ -50,6 +51,11 @@ func NewQuota(eventsPerSecond float32, burst, maxEntries int) *Quota {
 // would let one subscriber rotate through its own addresses and evade the
 // limiter entirely.
 func ipKey(ipStr string) string {
+	// A link-local peer's address carries a zone ("fe80::1%eth0"), which
+	// net.ParseIP does not accept; the zone plays no part in the bucket.
+	if i := strings.IndexByte(ipStr, '%'); i >= 0 {
+		ipStr = ipStr[:i]
+	}
 	ip := net.ParseIP(ipStr)
 	if ip == nil {
 		return ""
